@@ -122,6 +122,8 @@ class CsrMachine(Machine):
         self.rocc_group: set[int] = set()
         self.rocc_launch_f7 = {a for d in decls if d.rocc for a in d.launch.values()}
         self.rocc_name = next((d.name for d in decls if d.rocc), None)
+        #: programs with per-channel gemmx launches: every launch-register write is logged with its own register snapshot
+        self.split_launch = False
 
     def probe(self, name, n=1):
         self.probes[name] = self.probes.get(name, 0) + n
@@ -182,7 +184,7 @@ class CsrMachine(Machine):
                 d.awaiting = False
                 self.hist.append(("await", d.d.name))
             return
-        if not d.in_launch:
+        if not d.in_launch or self.split_launch:
             self.close_launch()
             if d.busy_until > self.now:
                 raise Violation("await", f"launch of {d.d.name} while it is still busy (the preceding await returned early or is missing)")
@@ -322,7 +324,7 @@ def norm_val(v, bits):
     return v & ((1 << bits) - 1) if isinstance(v, int) else v
 
 
-def normalise_reference(hist, decls: dict[str, AccDecl]):
+def normalise_reference(hist, decls: dict[str, AccDecl], split_launch=False):
     """accfg-level history -> the events the lowered program must produce."""
     out = []
     for e in hist:
@@ -359,9 +361,21 @@ def normalise_reference(hist, decls: dict[str, AccDecl]):
                     out.append(("insn", d.launch[nm + ".rs1"], norm_val(lv[nm + ".rs1"], 64), norm_val(lv[nm + ".rs2"], 64)))
             else:
                 snap = {f: norm_val(e[3][f], 32) for f in e[4]}
-                out.append(("launch", e[1], snap))
+                if not split_launch:
+                    out.append(("launch", e[1], snap))
                 for n, v in e[2]:
+                    if split_launch:
+                        out.append(("launch", e[1], snap))
                     out.append(("lw", e[1], n, norm_val(v, 32)))
+        elif k == "pclaunch":
+            lv = dict(e[2])
+            regs, w = e[3][0]
+            out.append(("launch", e[1], {f: norm_val(regs[f], 32) for f in w}))
+            out.append(("lw", e[1], "launch_streamer", norm_val(lv["launch_streamer"], 32)))
+            for regs, w in e[3][1:]:
+                out.append(("launch", e[1], {f: norm_val(regs[f], 32) for f in w}))
+                out.append(("lw", e[1], "launch_gemmx", norm_val(lv["launch_gemmx"], 32)))
+                out.append(("await", e[1]))
         elif k == "await":
             if not decls[e[1]].rocc:
                 out.append(("await", e[1]))
@@ -410,7 +424,12 @@ def _segments(events):
     return out
 
 
-def compare_csr(ref_events, sub_events, decls: dict[str, AccDecl]) -> str | None:
+def compare_csr(ref_events, sub_events, decls: dict[str, AccDecl], ignore_writes=False) -> str | None:
+    if ignore_writes:
+        # programs with per-channel gemmx launches: which field writes the launch lowering issues itself is its own
+        # business; what counts is the register contents at every launch (snapshots), the launch writes and the awaits
+        ref_events = [e for e in ref_events if e[0] != "w"]
+        sub_events = [e for e in sub_events if e[0] != "w"]
     a, b = _segments(ref_events), _segments(sub_events)
     for k, (x, y) in enumerate(zip(a, b)):
         if x[0] != y[0]:
